@@ -104,7 +104,7 @@ def build_harness(ctx, cfg_rng=False):
 def regen_facts(ctx):
     """Regenerate Extracted/*.lean from the code; write only when content changed."""
     ok = True
-    for sub, rel in (("facts", "PasetoModel/Extracted/Headers.lean"),):
+    for sub, rel in (("facts", "PasetoModel/Extracted/Headers.lean"), ("impls", "PasetoModel/Extracted/Impls.lean")):
         rc, out, err = sh([PM, sub], timeout=600)
         if rc != 0 or "namespace PM.Extracted" not in out:
             ctx.k_broken.append({"kind": "facts", "detail": (err or out)[-2000:]})
@@ -117,6 +117,22 @@ def regen_facts(ctx):
             open(tmp, "w").write(out)
             os.replace(tmp, path)
             ctx.note("facts changed: %s regenerated" % rel)
+    # C19 facts: feature tables + cfg-gate scan (python)
+    try:
+        import featscan
+        text, info = featscan.emit()
+        path = os.path.join(LEAN, "PasetoModel", "Extracted", "Features.lean")
+        old = open(path).read() if os.path.exists(path) else None
+        if old != text:
+            tmp = path + ".tmp%d" % os.getpid()
+            open(tmp, "w").write(text)
+            os.replace(tmp, path)
+            ctx.note("facts changed: PasetoModel/Extracted/Features.lean regenerated")
+        ctx.feat_info = info
+    except Exception as e:  # a scan failure degrades to the behavioural tie (cargo check of subsets), with a note
+        ctx.note("feature scan failed: %r" % (e,))
+        ctx.k_broken.append({"kind": "feature-scan", "detail": repr(e)})
+        ok = False
     return ok
 
 
@@ -242,7 +258,7 @@ def canon(line, policy):
     return line
 
 
-def run_stream(ctx, name, gen_args, policy="okerr", oracle=None, pm=PM, ops=None, nontrivial=None, gen_pm=PM, heavy=False):
+def run_stream(ctx, name, gen_args, policy="okerr", oracle=None, pm=PM, ops=None, nontrivial=None, gen_pm=PM, heavy=False, impl_lines=None):
     """generate ops, run implementation and model, diff, run oracle"""
     os.makedirs(RUN, exist_ok=True)
     tag = "%s_%s_%d" % (ctx.pid, name, os.getpid())
@@ -273,7 +289,10 @@ def run_stream(ctx, name, gen_args, policy="okerr", oracle=None, pm=PM, ops=None
                 ctx.k_broken.append({"kind": "stage1", "stream": name, "op": lines[k][:400]})
         ops = "\n".join(lines) + "\n"
     open(ops_path, "w").write(ops)
-    rc, impl, err = par([pm, "exec"], ops, timeout=14400, heavy=heavy)
+    if impl_lines is not None:
+        rc, impl, err = 0, "\n".join(impl_lines) + "\n", ""
+    else:
+        rc, impl, err = par([pm, "exec"], ops, timeout=14400, heavy=heavy)
     if rc != 0:
         # the process died (abort / signal): bisect to the offending line
         lines = ops.splitlines()
